@@ -1382,7 +1382,7 @@ def binding_stream(ctx, n):
             mo = ("err", {1: "doubly", 2: "required", 3: "unknown-sheet", 4: "unhashable"}.get(out[1], f"code {out[1]}"))
             mw = None
         else:
-            mo = ("ok", {dec_str(k): rows_of(from_c16(c16.dec_value(x)), sheets_all) for k, x in out[0]})
+            mo = ("ok", {dec_str(k): from_c16(c16.dec_value(x)) for k, x in out[0]})
             mw = bool(out[1])
         if not same_binding(mo, (impl[0], {k: sheets_all_rows(x) for k, x in impl[1].items()}) if impl[0] == "ok" else impl):
             ctx.disagree("binding: bind_args (Comp/InsertArgs.v) vs map_template_arguments_to_context", rep, repr(mo)[:600], repr(impl)[:600])
@@ -1394,10 +1394,6 @@ def binding_stream(ctx, n):
     dist["argument_classes"] = dict(sorted(dist["argument_classes"].items()))
     ctx.stats["insert_argument_binding_history"] = dist
     return nontrivial
-
-
-def rows_of(x, sheets_all):
-    return x
 
 
 def replay_binding(r):
